@@ -93,7 +93,7 @@ SDD_T = ("BinarySDD", "SddOr", "SddAnd", "SddPtr")
 PROPS = {
     "C01": {
         "level": "other",
-        "rules": [("DF", 1, has("VarOrder", "label-tables")), ("CP", 19, has("builder::bdd::", "repr::bdd::BddPtr", "cache::all_app", "cache::lru_app")),
+        "rules": [("DI", 0, None), ("DF", 1, has("VarOrder", "label-tables")), ("CP", 19, has("builder::bdd::", "repr::bdd::BddPtr", "cache::all_app", "cache::lru_app")),
                   ("IM", 14, has("IM2", "IM3")), ("HE", 2, has("BddNode:scratch", "BddNode:fields")),
                   ("DT", 7, has("BddPtr", "BottomUpBuilder::or:", "BottomUpBuilder::compose:")),
                   ("FS", 2, has("or_lst", "and_lst")), ("ST", 2, None), ("GL", 1, has("GL6")), ("VO", 14, vo_sel("::bdd::", "var_order")),
@@ -115,7 +115,7 @@ PROPS = {
     },
     "C03": {
         "level": "other",
-        "rules": [("DF", 1, has("VTreeManager", "label-tables")), ("TR", 0, has("repr::sdd", "builder::sdd")), ("CP", 32, has("builder::sdd::", "repr::sdd::SddPtr", "cache::all_app::AllIteTable:compl-flag")), ("DT", 7, has("SddPtr", "BottomUpBuilder::or:", "BottomUpBuilder::compose:")),
+        "rules": [("DI", 0, None), ("DF", 1, has("VTreeManager", "label-tables")), ("TR", 0, has("repr::sdd", "builder::sdd")), ("CP", 32, has("builder::sdd::", "repr::sdd::SddPtr", "cache::all_app::AllIteTable:compl-flag")), ("DT", 7, has("SddPtr", "BottomUpBuilder::or:", "BottomUpBuilder::compose:")),
                   ("IM", 14, has("IM2", "IM3")), ("HE", 4, has("BinarySDD:scratch", "SddOr:scratch", "BinarySDD:fields", "SddOr:fields")),
                   ("ST", 2, None), ("SH", 1, has("SddPtr> for T>::condition")), ("SA", 10, None), ("VX", 11, None),
                   ("VO", 1, vo_sel("::sdd::", only_label_order=True)),
@@ -131,7 +131,7 @@ PROPS = {
     },
     "C06": {
         "level": "other",
-        "rules": [("WC", 2, has("watch-tables")), ("DF", 1, has("UnitPropagate", "VarOrder", "label-tables")), ("CP", 4, has("decision_nnf::")), ("TS", 7, has("TS-BAL")), ("DP", 3, has("topdown")),
+        "rules": [("DI", 0, None), ("WC", 2, has("watch-tables")), ("DF", 1, has("UnitPropagate", "VarOrder", "label-tables")), ("CP", 4, has("decision_nnf::")), ("TS", 7, has("TS-BAL")), ("DP", 3, has("topdown")),
                   ("GL", 3, has("component-cache", "topdown_h:GL11")), ("SP", 10, has("SP1")),
                   ("GL", 1, has("GL3:return-found")), ("RH", 1, has("grow:rehome")),
                   ("SH", 6, has("decision_nnf::")), ("RN", 3, has("RN4")),
@@ -182,7 +182,7 @@ PROPS = {
     },
     "C11": {
         "level": "other",
-        "rules": [("WC", 4, has("hash-memo")), ("DF", 1, has("WmcParams", "label-tables")), ("TR", 0, has("semantic", "backing_store")), ("CM", 3, has("compress:CM")), ("CP", 4, has("cached_semantic_hash:sign", "check_cached_hash_and_neg")), ("IM", 3, has("IM5:semantic_hash")),
+        "rules": [("DI", 0, None), ("WC", 4, has("hash-memo")), ("DF", 1, has("WmcParams", "label-tables")), ("TR", 0, has("semantic", "backing_store")), ("CM", 3, has("compress:CM")), ("CP", 4, has("cached_semantic_hash:sign", "check_cached_hash_and_neg")), ("IM", 3, has("IM5:semantic_hash")),
                   ("NB", 33, None), ("IC", 4, has("create_semantic_hash_map")), ("GL", 6, has("GL7", "GL3:return-found")), ("WC", 2, has("sdd-apply-cache")), ("RH", 1, has("grow:rehome")),
                   ("CP", 3, has("decision_nnf::builder::DecisionNNFBuilder::cond_helper")), ("SE", 11, None), ("WC", 6, has("sdd-node"))],
         "explanation": "Hash values follow the pointer's sign (complemented -> negate(hash of the regular pointer)) and a node "
@@ -193,7 +193,7 @@ PROPS = {
     },
     "C02": {
         "level": "other",
-        "rules": [("DF", 1, has("VarOrder", "label-tables")), ("GL", 4, has("GL3", "GL2:slot-write", "GL2:grow")), ("TS", 3, has("TS-OCC")), ("HE", 4, has(*BDD_T)),
+        "rules": [("DI", 0, None), ("DF", 1, has("VarOrder", "label-tables")), ("GL", 4, has("GL3", "GL2:slot-write", "GL2:grow")), ("TS", 3, has("TS-OCC")), ("HE", 4, has(*BDD_T)),
                   ("SH", 1, has("ite_helper:SH1")), ("WC", 4, has("bdd-node")),
                   ("RN", 4, has("RN1", "RN2")), ("IM", 37, has("IM3", "IM4", "IM2")), ("RH", 14, None),
                   ("VO", 14, vo_sel("::bdd::", "var_order")), ("ST", 2, None)],
@@ -208,7 +208,7 @@ PROPS = {
     },
     "C04": {
         "level": "other",
-        "rules": [("DF", 1, has("VTreeManager", "label-tables")), ("RN", 8, has("RN3")), ("HE", 7, has(*SDD_T)), ("GL", 2, has("GL3")), ("TS", 3, has("TS-OCC")),
+        "rules": [("DI", 0, None), ("DF", 1, has("VTreeManager", "label-tables")), ("RN", 8, has("RN3")), ("HE", 7, has(*SDD_T)), ("GL", 2, has("GL3")), ("TS", 3, has("TS-OCC")),
                   ("IM", 22, has("IM4")), ("RH", 14, None), ("CM", 8, None), ("WC", 6, has("sdd-node"))],
         "explanation": "Order of SDD canonicalisation steps on every path to the unique tables (trim, compress, trim, sort, "
                        "sign-normalise, intern: RN3), Hash/Eq agreement of BinarySDD/SddOr/SddAnd and identity Hash/Eq of "
@@ -218,7 +218,7 @@ PROPS = {
     },
     "C05": {
         "level": "other",
-        "rules": [("DP", 21, has("compile_logical_expr", "compile_plan", "BottomUpPlan::")),
+        "rules": [("DI", 0, None), ("DP", 21, has("compile_logical_expr", "compile_plan", "BottomUpPlan::")),
                   ("FS", 10, has("compile_cnf", "or_lst", "and_lst", "from_dtree", "compile_plan", "compile_logical_expr", "reduce<-")), ("DT", 1, has("BottomUpBuilder::or:")),
                   ("SH", 5, has(":CC:")), ("ST", 2, None), ("GL", 1, has("GL6")),
                   ("CP", 3, has("cond_with_alloc", "condition_essential")), ("LC", 1, has("compile_cnf_with_assignments")),
@@ -233,7 +233,7 @@ PROPS = {
     },
     "C09": {
         "level": "other",
-        "rules": [("WC", 2, has("watch-tables")), ("DF", 1, has("UnitPropagate", "label-tables")), ("WP", 14, has("unit_prop")), ("TS", 5, has("TS-STK")), ("WI", 1, None), ("PR", 1, has("SATSolver")),
+        "rules": [("DI", 0, None), ("WC", 2, has("watch-tables")), ("DF", 1, has("UnitPropagate", "label-tables")), ("WP", 14, has("unit_prop")), ("TS", 5, has("TS-STK")), ("WI", 1, None), ("PR", 1, has("SATSolver")),
                   ("LT", 2, has("UnitPropagate")), ("PM", 5, has("::get:", "::unset:", "::is_set:", "::lit_implied:", "::lit_neg_implied:")),
                   ("WS", 20, None), ("TF", 1, None), ("EC", 4, None), ("LC", 1, has("UnitPropagate::decide")), ("LP", 6, None), ("UG", 1, None), ("EM", 2, has("unit_prop"))],
         "explanation": "Every pos/neg watch-list / occurrence-table access in unit_prop.rs is selected by the polarity of "
@@ -245,7 +245,7 @@ PROPS = {
     },
     "C12": {
         "level": "other",
-        "rules": [("TR", 0, has("repr::bdd::BddPtr")), ("BB", 22, None), ("LAW", 6, has(":join", ":meet", ":choose")), ("LAW", 2, has("RealSemiring:eq-is-value-equality", "ExpectedUtility:eq-is-value-equality")), ("VO", 1, vo_sel("repr::bdd", only_label_order=True)), ("LAW", 5, has("ExpectedUtility:mul", "ExpectedUtility:distrib", "ExpectedUtility:add", "ExpectedUtility:one", "ExpectedUtility:zero")),
+        "rules": [("DI", 0, None), ("TR", 0, has("repr::bdd::BddPtr")), ("BB", 22, None), ("LAW", 6, has(":join", ":meet", ":choose")), ("LAW", 2, has("RealSemiring:eq-is-value-equality", "ExpectedUtility:eq-is-value-equality")), ("VO", 1, vo_sel("repr::bdd", only_label_order=True)), ("LAW", 5, has("ExpectedUtility:mul", "ExpectedUtility:distrib", "ExpectedUtility:add", "ExpectedUtility:one", "ExpectedUtility:zero")),
                   ("FS", 2, lambda x: "repr::bdd::BddPtr::" in x["key"] and x["key"].endswith("<-Mul")), ("PM", 4, has("::set:", "::get:", "assignment_iter", "shared-model-restored"))],
         "explanation": "Decides the part of 'returns the optimum and an assignment attaining it' that is in the shape of the three "
                        "sibling searches (marginal_map_h, meu_h, bb_h), their bound functions and drivers, checked identically on "
@@ -265,7 +265,7 @@ PROPS = {
     },
     "C13": {
         "level": "other",
-        "rules": [("NB", 33, None), ("LAW", 55, None)],
+        "rules": [("DI", 0, None), ("NB", 33, None), ("LAW", 55, None)],
         "explanation": "Interval analysis of FiniteField::{new,negate,add,mul,sub} for each of the 7 exported primes with the "
                        "type invariant v in [0,P-1]: no u128 overflow/underflow (NB); every FiniteField literal is reduced "
                        "(NB-inv); subtraction borrows the modulus (NB-mod); polynomial coefficient writes are bounded by "
@@ -274,7 +274,7 @@ PROPS = {
     },
     "C14": {
         "level": "other",
-        "rules": [("DF", 1, has("VarOrder", "VTreeManager", "label-tables")), ("IC", 13, hasnot("repr::cnf::Cnf::from_dimacs")), ("VO", 15, vo_sel("var_order", "vtree", "dtree", "force_order")), ("DTR", 5, None), ("VX", 11, None),
+        "rules": [("DI", 0, None), ("DF", 1, has("VarOrder", "VTreeManager", "label-tables")), ("IC", 13, hasnot("repr::cnf::Cnf::from_dimacs")), ("VO", 15, vo_sel("var_order", "vtree", "dtree", "force_order")), ("DTR", 5, None), ("VX", 11, None),
                   ("LT", 2, has("VarOrder", "VTreeManager")), ("VT", 5, None), ("BT", 9, None),
                   ("NC", 1, has("DTree::from_cnf")), ("MF", 4, None), ("EM", 4, has("DTree::from_cnf", "force_order", "average_span", "interaction_graph")), ("FD", 2, None)],
         "explanation": "Dimension analysis (Index / Count / OneBased): every function called num_vars returns a count, every "
@@ -283,7 +283,7 @@ PROPS = {
     },
     "C15": {
         "level": "other",
-        "rules": [("DF", 1, has("CnfHasher", "label-tables")), ("EE", 3, None), ("IC", 5, has("repr::cnf::")), ("WP", 1, has("repr::cnf::")),
+        "rules": [("DI", 0, None), ("DF", 1, has("CnfHasher", "label-tables")), ("EE", 3, None), ("IC", 5, has("repr::cnf::")), ("WP", 1, has("repr::cnf::")),
                   ("FS", 3, has("repr::cnf::", "assignment_weight")), ("CN", 2, None),
                   ("PR", 1, has("CnfHasher")), ("LT", 2, has("CnfHasher")),
                   ("PM", 9, None), ("HS", 5, None), ("LC", 2, has("is_sat_partial", "Cnf::eval", "Cnf::condition")), ("LP", 6, None), ("WT", 1, has("from_litvec")), ("DP", 1, has("from_string:sign")), ("EM", 6, has("repr::cnf::"))],
@@ -295,7 +295,7 @@ PROPS = {
     },
     "C16": {
         "level": "proof",
-        "rules": [("TR", 0, has("util::lru", "builder::cache", "app_cache", "ite_cache")), ("GL", 24, hasnot("GL3", "component-cache", "GL6", "GL7")), ("CP", 2, has("IteTable:compl-flag")), ("ST", 2, None)],
+        "rules": [("DI", 0, None), ("TR", 0, has("util::lru", "builder::cache", "app_cache", "ite_cache")), ("GL", 24, hasnot("GL3", "component-cache", "GL6", "GL7")), ("CP", 2, has("IteTable:compl-flag")), ("ST", 2, None)],
         "explanation": "Complete structural argument for the first sentence: Lru::get returns Some(e.val) only under the "
                        "true edge of e.key == key (GL1); insert writes one Element{key,val,hash} of its own arguments into "
                        "the slot that get reads, grow re-inserts whole triples (GL2); the adapter's hash is a function of "
@@ -304,7 +304,7 @@ PROPS = {
     },
     "C17": {
         "level": "other",
-        "rules": [("MP", 1, has("variable-numbering")), ("DP", 12, has("from_sexpr", "VTreeSerializer", "from_dimacs", "to_dimacs")), ("IC", 1, has("from_dimacs")),
+        "rules": [("DI", 0, None), ("MP", 1, has("variable-numbering")), ("DP", 12, has("from_sexpr", "VTreeSerializer", "from_dimacs", "to_dimacs")), ("IC", 1, has("from_dimacs")),
                   ("CP", 6, has("serialize::")), ("CN", 1, has("repr::cnf::")), ("SR", 3, None), ("LE", 7, None),
                   ("NC", 5, has("from_dimacs", "to_dimacs")), ("SP", 0, has("SP1:serialize", "SP1:ffi::bdd::bdd_to_json")), ("LP", 6, None), ("DP", 1, has("from_string:sign")), ("EM", 3, has("from_dimacs", "to_dimacs")), ("UV", 1, None), ("TX", 2, None)],
         "explanation": "The s-expression translation and the vtree mirror map each variant to its namesake with children in "
@@ -314,7 +314,7 @@ PROPS = {
     },
     "C18": {
         "level": "proof",
-        "rules": [("TR", 0, has("ffi::")), ("WF", 56, None)],
+        "rules": [("DI", 0, None), ("TR", 0, has("ffi::")), ("WF", 56, None)],
         "explanation": "Wrapper faithfulness of all 65 #[no_mangle] extern \"C\" exports: the value each wrapper "
                        "returns (or the one effect call it makes), reconstructed from its MIR as a term over its "
                        "parameters with marshalling stripped, equals the native operation and argument "
@@ -326,7 +326,7 @@ PROPS = {
     },
     "C19": {
         "level": "other",
-        "rules": [("GL", 1, lambda r: "::bdd::" in r["key"] and (":GL9:" in r["key"] or ":GL6:" in r["key"])), ("MP", 8, None), ("SL", 7, None), ("CP", 3, has("ser_bdd")), ("VO", 3, has("var_at_level", "VarOrder::new:inverse-by-construction")),
+        "rules": [("DI", 0, None), ("GL", 1, lambda r: "::bdd::" in r["key"] and (":GL9:" in r["key"] or ":GL6:" in r["key"])), ("MP", 8, None), ("SL", 7, None), ("CP", 3, has("ser_bdd")), ("VO", 3, has("var_at_level", "VarOrder::new:inverse-by-construction")),
                   ("CN", 1, has("dedup")), ("DP", 9, has("from_dimacs:sign", "from_sexpr")), ("DP", 4, has("compile_logical_expr", "BottomUpPlan::from_dtree")), ("SR", 1, has("ser_bdd")),
                   ("NC", 4, has("Cnf::from_dimacs", "DTree::from_cnf")), ("MF", 4, None), ("EM", 3, has("DTree::from_cnf", "force_order", "average_span")), ("SH", 1, has("ite_helper:SH1")), ("UV", 1, None), ("TX", 1, has("Cnf::from_dimacs"))],
         "explanation": "In each tool the counted / serialised diagram is the compiled one, compiled on a builder whose order "
